@@ -639,6 +639,17 @@ PeerConnection<type>::event_write() {
           return;
 
         m_up->set_state(ProtocolWrite::IDLE);
+
+        // up_extension() may have processed the message that was waiting for this write; messages
+        // already buffered behind it would otherwise only be parsed when more bytes arrive.
+        if (m_down->get_state() == ProtocolRead::READ_EXTENSION && m_extensions->is_complete() && m_extensions->is_invalid()) {
+          m_down->set_state(ProtocolRead::IDLE);
+
+          while (read_message())
+            ; // Do nothing.
+
+          m_down->buffer()->move_unused();
+        }
         break;
 
       default:
